@@ -6,37 +6,50 @@ GENERATED = []
 SOURCES = ["src/allmydata/mutable/servermap.py", "src/allmydata/mutable/publish.py",
            "src/allmydata/mutable/filenode.py"]
 DESIGN_REF = "DESIGN.md §2 C11"
-TECHNIQUE = ("Lean 4 theorems over an executable model of ServerMap (every query function), the Publish seqnum choice and "
-             "ServermapUpdater._check_for_done/_send_more_queries (all modes, with their counters and the EPSILON boundary "
-             "scan); differential correspondence (a) of seeded version mixes on real ServerMap objects, (b) of seeded "
-             "updater states on real ServermapUpdater objects (real _check_for_done and _send_more_queries), (c) of every "
-             "_check_for_done call and every final servermap of real publish/read histories in the in-process grid; "
-             "implementation-side monitor written from the statement")
-LEVEL_TEXT = ("new seqnum > every surveyed seqnum, one writer's seqnums strictly increase over histories of any length, "
-              "best_recoverable_version = maximum (seqnum, root hash) among versions with >= k distinct shares, and the "
-              "MODE_READ rule 'never done while a newer unrecoverable version is visible and servers remain or queries are "
-              "outstanding' (plus its converse) are proved in Lean for all servermaps / updater states; the model is tied "
-              "to the code at function level and on grid histories.")
+TECHNIQUE = ("Lean 4 theorems over an executable model of ServerMap (every query function), several survey passes into one "
+             "servermap, the Publish seqnum choice and ServermapUpdater._check_for_done/_send_more_queries (all five modes, "
+             "their counters, the EPSILON boundary scan); differential correspondence (a) of seeded version mixes on real "
+             "ServerMap objects, incl. the seqnum the real Publish.publish()/update() set-up chooses, (b) of seeded updater "
+             "states on real ServermapUpdater objects (_check_for_done, _send_more_queries, _got_signature_one_share), "
+             "(c) on grid histories: every _check_for_done call, every final servermap, and every servermap replayed from "
+             "the log of its mutator calls (nothing else may change a map); a fixed corpus (one case per known mechanism) "
+             "runs first; implementation-side monitors written from the statement")
+LEVEL_TEXT = ("Proved in Lean for all servermaps / updater states / pass sequences: new_seqnum_exceeds_survey and "
+              "new_seqnum_exceeds_all_passes (new seqnum above every share seen in any survey pass of the operation), "
+              "one_writer_strictly_increasing, best_is_max_recoverable, keeps_querying / keeps_querying_sends / "
+              "read_done_sound (MODE_READ never finishes while a newer unrecoverable version is visible and servers remain), "
+              "write_done_boundary (MODE_WRITE boundary rule) and check_repair_anything_exits. The model is tied to the code "
+              "at function level and on grid histories.")
 LEVEL_NOTE = ("Lean kernel + standard axioms; the model is a hand transcription tied by correspondence; verinfo tuples are "
-              "modelled field by field with Python's lexicographic tuple order; timestamps dropped; the updater is "
-              "modelled as its decision function (the query/response plumbing is exercised on the grid, not verified)")
-RULE = ("(a) seeded ServerMap build histories (add_new_share / mark_bad_share / reachability, 1..5 versions with seqnum, "
-        "root-hash and late-field ties, k 1..4) — one case per servermap, non-trivial = at least 2 versions present; "
-        "(b) seeded ServermapUpdater states in all five modes — one case per _check_for_done call, non-trivial = running "
-        "and no must-query server left; (c) grid histories: create + up to 5 publishes (overwrite or MDMF/SDMF update) on "
-        "1..12 servers with servers unavailable during publishes and reads, stale share files copied back on server "
-        "subsets (replayed old shares), deleted shares, a read by a second client after every step — one case per "
-        "publish, read and observed _check_for_done call; distinct = distinct canonical inputs")
-TRUSTED = ["lean/Tahoe/Mutable/ServerMap.lean is a hand transcription of ServerMap and _check_for_done",
-           "harness/grid.py (in-process grid) and the observation hooks of harness/props/c11.py (wrappers around "
-           "Publish.publish/update and ServermapUpdater._check_for_done that record state and call the original)"]
+              "modelled field by field with Python's lexicographic tuple order (offset names by rank); timestamps dropped; "
+              "the updater is modelled as its decision function (the query/response plumbing is exercised on the grid, not "
+              "verified); write_done_boundary states the number of empty answers, their consecutiveness is correspondence only")
+RULE = ("fixed corpus first (VERIF_CORPUS_ONLY=1 runs only it): servermaps, updater states, _got_signature_one_share cases "
+        "and grid histories, one per seeded change / repaired defect; then (a) seeded ServerMap build histories "
+        "(add_new_share / mark_bad_share / reachability, 1..5 versions with seqnum, root-hash, late-field and offset-order "
+        "ties, k 1..4) — one case per servermap, non-trivial = at least 2 versions present; (b) seeded ServermapUpdater "
+        "states in all five modes — one case per _check_for_done call, non-trivial = running and no must-query server left; "
+        "(c) grid histories on 1..12 servers: create + up to 5 publishes (overwrite, update, modify, get_best_mutable_version "
+        "then modify/update, overwrite-then-modify on one version object) with servers unavailable, answering-then-failing "
+        "or failing-then-answering between survey passes, failing only on writes, away (not connected) during a publish, "
+        "stale share files copied back, deleted shares, shares larger than the survey cache, and a read by a second client "
+        "(also with servers that answer the survey and fail the block fetch) — one case per publish, read and observed "
+        "_check_for_done call; distinct = distinct canonical inputs")
+TRUSTED = ["lean/Tahoe/Mutable/ServerMap.lean and Resurvey.lean are hand transcriptions of ServerMap, the survey passes and "
+           "_check_for_done",
+           "harness/grid.py (in-process grid) and the observation hooks of harness/props/c11.py (call-through wrappers around "
+           "Publish.publish/update, ServermapUpdater._check_for_done and the four ServerMap mutators)"]
 ASSUMPTIONS = ["all verinfos in one servermap are of one format (IV all bytes or all None): Python raises TypeError when "
                "tuple comparison reaches None vs bytes",
                "offsets tuples are compared as Python does (pair by pair, name before offset); names travel to the model as "
-               "their rank in string order.  Observed: the MDMF write proxy and the read proxy list the names in different "
-               "orders, so a servermap can hold one version under two verinfos (counted: grid-map-one-version-two-verinfos)",
-               "'every version its survey observed' = every share in the servermap handed to Publish (shares the "
-               "updater rejected as corrupt are not versions)"]
+               "their rank in string order. A real servermap holding one version under two verinfos (the defect repaired in "
+               "/repo as 80fa722) is reported as a violation",
+               "'every version its survey observed' = every share recorded by any survey pass of the operation (shares the "
+               "updater rejected as corrupt are not versions); new_seqnum_exceeds_all_passes assumes the shares themselves do "
+               "not change while the operation runs (servers may stop answering between passes in any pattern)",
+               "a mutable read that never terminates (Retrieve re-trying one corrupt share whose share number has a second "
+               "holder; observed, DESIGN 8.9) is outside the statement: such a history is cut off after 60000 scheduler steps "
+               "and counted"]
 
 import random
 import struct
